@@ -126,6 +126,9 @@ func VerifC16Page() {
 			verifReach("nonpositive-fresh")
 			verifAssert(err == nil, "page: n<=0 on a fresh handle must return a nil error")
 			verifAssert(len(entries) == c, "page: n<=0 on a fresh handle must return every entry")
+			// ... and consumes the listing: a positive count afterwards finds nothing left (os.File does the same)
+			more, merr := hackpadfs.ReadDirFile(f, 1)
+			verifAssert(len(more) == 0 && merr == io.EOF, "page: after n<=0 returned every entry a positive count must report io.EOF")
 			return
 		}
 		verifAssert(int64(len(entries)) <= int64(n), "page: more than n entries")
